@@ -2,4 +2,4 @@
    Z.of_nat is extracted only because ocaml/common/conv.ml mentions the types z and positive. *)
 From Coq Require Import Extraction ExtrOcamlBasic ZArith.
 Require Import MW.Sched.Handshake.
-Extraction "model.ml" step_l step init_state rank observable quit cfg_found cfg_repaired Z.of_nat.
+Extraction "model.ml" step_l step init_state start_state start_cap cfg_cap busy_threshold rank observable quit cfg_found cfg_repaired Z.of_nat.
